@@ -65,6 +65,10 @@ pub fn install(path: &str) {
     }
 }
 
+pub fn worker() -> usize {
+    WID.with(|w| w.get())
+}
+
 pub fn set_worker(id: usize) {
     WID.with(|w| w.set(id));
 }
